@@ -187,3 +187,42 @@ func init() {
 			return obs
 		}})
 }
+
+// STATE.no-pools — C11 ("appending to … any result of append never writes into
+// another value"; non-mutating operations return values nothing else can write
+// through) and C09 (runtimes share no mutable state): a sync.Pool hands the
+// same buffer to successive callers.  A value built over pooled storage is
+// overwritten by the next caller — another evaluation, another runtime, another
+// goroutine — long after it was returned.  The kernel allocates its results.
+func init() {
+	register(&Rule{ID: "STATE.no-pools", Floor: 0,
+		Doc: "no package-level variable, struct field or local of the interpreter kernel has type sync.Pool (or *sync.Pool): every value a builtin returns lives in storage allocated for it, not in a buffer that is recycled to a later call.  (Zero sites today; the seeded change C11-r3m3 is the standing positive example re-checked by selftest.)",
+		Run: func(c *Ctx) []Obligation {
+			const rid = "STATE.no-pools"
+			isPool := func(t types.Type) bool {
+				if p, ok := t.(*types.Pointer); ok {
+					t = p.Elem()
+				}
+				n, ok := types.Unalias(t).(*types.Named)
+				return ok && n.Obj().Pkg() != nil && n.Obj().Pkg().Path() == "sync" && n.Obj().Name() == "Pool"
+			}
+			var obs []Obligation
+			for _, p := range c.Pkgs {
+				if !isKernel(p.PkgPath) {
+					continue
+				}
+				for id, o := range p.TypesInfo.Defs {
+					v, ok := o.(*types.Var)
+					if !ok || !isPool(v.Type()) {
+						continue
+					}
+					if strings.HasSuffix(c.Fset.Position(id.Pos()).Filename, "_test.go") {
+						continue
+					}
+					obs = append(obs, Obligation{Rule: rid, Func: rel(p.PkgPath) + "." + v.Name(), Construct: "sync.Pool", Pos: c.Pos(id.Pos()), Verdict: Violated, Nontrivial: true,
+						Detail: "a recycled buffer: a value built over it (a byte string that wraps buf.Bytes(), a list over its cells) is rewritten by the next call that takes the buffer from the pool, so a result of a non-mutating operation changes after it was returned — in the same runtime or in another one"})
+				}
+			}
+			return obs
+		}})
+}
